@@ -120,6 +120,7 @@ struct Exec {
   Rng &rng;
   Observer &obs;
   long budget;          // statements
+  long block_budget = 4000; // block arrivals
   int call_depth = 0;
   int max_call_depth = 6;
   std::vector<int64_t> value_pool; // constants of the program (for havoc)
@@ -258,6 +259,14 @@ struct Exec {
       st.arr[s.lhs][idx] = val;
       return RS_OK;
     }
+    case S_ARR_STORE_RANGE: {
+      i128 lb, ub, val;
+      if (!eval_exp(s.e1, st, lb) || !eval_exp(s.e2, st, ub) || !eval_exp(s.e3, st, val)) return cutr("overflow-guard");
+      if (ub - lb > 4096) return cutr("array-too-big");
+      auto &a = st.arr[s.lhs];
+      for (i128 i = lb; i <= ub; i += s.k) a[i] = val;
+      return RS_OK;
+    }
     case S_ARR_LOAD: {
       i128 idx;
       if (!eval_exp(s.e1, st, idx)) return cutr("overflow-guard");
@@ -363,6 +372,7 @@ struct Exec {
     CState snap;
     for (;;) {
       Res r;
+      if (--block_budget < 0) return RS_BUDGET; // cycles of empty blocks consume no statement budget
       if (!obs.admit(fi, cur, st)) r = RS_BLOCKED;
       else {
         obs.enter_block(fi, cur, st);
